@@ -6,14 +6,15 @@ ASM = "del/*: ILLsymboltab_delete, ILLbasis_load and the row-copy cache (rA) are
 BS = B.replace("arbitrary bijection", "structural-first or logical-first column order").replace("with optional holes and free tail", "without holes, with a free tail")
 
 
-def dels(fn, funcs, props, small, **kw):
-    return Group("del/%s%s" % (fn, "_s" if small else ""), "lib_del.c", tus=LIB, model=MODEL, defines=["FN_" + fn] + (["LAYOUT_SMALL"] if small else []), dfcc=False, unwind=16, kind="bounded",
-                 bound=BS if small else B, timeout=2400, flags=["--no-malloc-may-fail"], tier="quick" if small else "thorough", functions=funcs, props=props, assumed=[ASM], **kw)
+def dels(fn, funcs, props, small, nr=2, tier=None, **kw):
+    return Group("del/%s%s%s" % (fn, "_s" if small else "", "" if nr == 2 else "_%dr" % nr), "lib_del.c", tus=LIB, model=MODEL, defines=["FN_" + fn, "NR=%d" % nr] + (["LAYOUT_SMALL"] if small else []), dfcc=False, unwind=8 * nr, kind="bounded",
+                 bound=(BS if small else B).replace("2 rows (4 internal", "%d rows (%d internal" % (nr, nr + 2)), timeout=3000, flags=["--no-malloc-may-fail"], tier=tier or ("quick" if small else "thorough"), functions=funcs, props=props, assumed=[ASM], **kw)
 
 
 GROUPS = [
     dels("delrows", ["ILLlib_delrows", "delcols_work"], ["C06", "C05", "C07", "C12", "C17"], True, must_fail=["reach_end", "reach_cache_kept"]),
     dels("delcols", ["ILLlib_delcols", "delcols_work"], ["C06", "C07", "C12", "C17"], True),
     dels("delrows", ["ILLlib_delrows", "delcols_work"], ["C06", "C05", "C07", "C12", "C17"], False, must_fail=["reach_end", "reach_cache_kept"]),
+    dels("delrows", ["ILLlib_delrows", "delcols_work"], ["C06", "C05", "C07", "C12", "C17"], True, nr=3, tier="thorough", must_fail=["reach_end", "reach_cache_kept"]),
     dels("delcols", ["ILLlib_delcols", "delcols_work"], ["C06", "C07", "C12", "C17"], False),
 ]
